@@ -10,13 +10,16 @@ import json
 import pickle
 from fractions import Fraction
 
+import warnings
+
 import numpy as np
 
 import core
 import oracle_faces as of
 import zoo
 from koala import graph_utils as gu
-from koala.lattice import INVALID, Lattice
+from koala import example_graphs as eg
+from koala.lattice import INVALID, Lattice, cut_boundaries, permute_vertices
 from props.c01 import min_gap, GAP_MIN
 
 
@@ -335,8 +338,10 @@ def run(ctx):
             tb = tables_of(base)
         except Exception:
             continue
-        for lab, (Pv, Ev, Cv) in (("crossing float64", (P.copy(), E.copy(), C.astype(np.float64))), ("indices int32, crossing int8", (P.copy(), E.astype(np.int32), C.astype(np.int8))),
-                                   ("column-major", (np.asfortranarray(P), np.asfortranarray(E), np.asfortranarray(C))), ("crossing float64, column-major", (P.copy(), E.copy(), np.asfortranarray(C.astype(np.float64))))):
+        narrow = [(f"indices {np.dtype(dt).name}", (P.copy(), E.astype(dt), C.copy())) for dt in (np.uint8, np.int8, np.int16, np.uint16, np.uint32)
+                  if len(P) - 1 <= np.iinfo(dt).max]
+        for lab, (Pv, Ev, Cv) in narrow + [("crossing float64", (P.copy(), E.copy(), C.astype(np.float64))), ("indices int32, crossing int8", (P.copy(), E.astype(np.int32), C.astype(np.int8))),
+                                   ("column-major", (np.asfortranarray(P), np.asfortranarray(E), np.asfortranarray(C))), ("crossing float64, column-major", (P.copy(), E.copy(), np.asfortranarray(C.astype(np.float64))))]:
             keepP, keepE, keepC = np.array(Pv).copy(), np.array(Ev).copy(), np.array(Cv).copy()
             rep = lambda what: ctx.impl_violation(f"{name}: built from ({lab}) arrays, {what}", dict(case=name, representation=lab, lattice=zoo.lat_to_json(l)))
             try:
@@ -350,6 +355,76 @@ def run(ctx):
             except Exception as ex:
                 rep(f"raised {type(ex).__name__}: {ex}"); continue
             ctx.case((name, "constructor", lab), nontrivial=True)
+    # narrow index dtypes on lattices large enough for products of indices to leave the dtype (uint8: 17 vertices, int16: 182, uint16: 257)
+    for name, lb in [("honey4", eg.honeycomb_lattice(4)), ("honey10", eg.honeycomb_lattice(10)), ("vor130", zoo.voronoi(rng, 130))]:
+        P, E, C = zoo.raw(lb)
+        try:
+            tb = tables_of(Lattice(P.copy(), E.copy(), C.copy()))
+        except Exception:
+            continue
+        for dt in (np.uint8, np.int8, np.int16, np.uint16, np.uint32, np.int32):
+            if len(P) - 1 > np.iinfo(dt).max:
+                continue
+            rep = lambda what: ctx.impl_violation(f"{name}: built from {np.dtype(dt).name} edge indices, {what}", dict(case=name, representation=np.dtype(dt).name, lattice=zoo.lat_to_json(lb)))
+            try:
+                if tables_of(Lattice(P.copy(), E.astype(dt), C.copy())) != tb:
+                    rep("the adjacency tables / plaquettes differ from those of the same lattice built from int64 arrays")
+            except Exception as ex:
+                rep(f"raised {type(ex).__name__}: {ex}")
+            ctx.case((name, "index dtype", np.dtype(dt).name), nontrivial=True)
+    # a lattice with more than a thousand edges: edge-neighbour table against the helper and against the definition, coordination, adjacency matrix
+    for name, lb in [("honey21", eg.honeycomb_lattice(21))] + ([] if ctx.tier == "quick" else [("vor900", zoo.voronoi(rng, 900))]):
+        lb = zoo.rebuild(lb)
+        idx = np.asarray(lb.edges.indices, dtype=int)
+        at = [[] for _ in range(lb.n_vertices)]
+        for e_, (a, b) in enumerate(idx):
+            at[a].append(e_); at[b].append(e_)
+        bad = None
+        for e_, (a, b) in enumerate(idx):
+            want = sorted(set(at[a] + at[b]) - {e_})
+            if sorted(int(x) for x in lb.edges.adjacent_edges[e_]) != want:
+                bad = f"edges.adjacent_edges[{e_}] = {sorted(int(x) for x in lb.edges.adjacent_edges[e_])[:8]}.. is not the set of other edges sharing a vertex with edge {e_} ({want[:8]}..)"; break
+            if e_ % 37 == 0 and sorted(int(x) for x in gu.edge_neighbours(lb, e_)) != want:
+                bad = f"edge_neighbours(l, {e_}) disagrees with the edges sharing a vertex with edge {e_}"; break
+        adj = lb.adjacency_matrix
+        if bad is None and (adj.sum() != 2 * len(set(map(tuple, np.sort(idx, axis=1)))) or not np.array_equal(adj, adj.T)):
+            bad = "the adjacency matrix is not symmetric with True exactly at joined pairs"
+        if bad is None and [int(x) for x in lb.vertices.coordination_numbers] != [len(x) for x in at]:
+            bad = "coordination numbers do not count the edge ends"
+        if bad:
+            ctx.impl_violation(f"{name} ({lb.n_edges} edges): {bad}", dict(case=name, generator=name))
+        ctx.case((name, "large"), nontrivial=True); ctx.count("lattices_with_more_than_1024_edges")
+    # every table read again after a panel of other operations on the same lattice object: the tables still agree with the edges and plaquettes
+    from koala.flux_finder import flux_finder as ff
+    for name, fam, l in keep[:: max(1, len(keep) // (10 if ctx.tier == "quick" else 60))]:
+        l = zoo.rebuild(l)
+        try:
+            before = tables_of(l)
+        except Exception:
+            continue
+        ran = []
+        for oname, op in (("make_dual", lambda: gu.make_dual(l)), ("make_dual(point averages)", lambda: gu.make_dual(l, True)), ("plaquette_spanning_tree", lambda: gu.plaquette_spanning_tree(l)),
+                          ("plaquette_spanning_tree(False)", lambda: gu.plaquette_spanning_tree(l, False)), ("vertices_to_polygon", lambda: gu.vertices_to_polygon(l)),
+                          ("remove_trailing_edges", lambda: gu.remove_trailing_edges(l)), ("cut_boundaries", lambda: cut_boundaries(l)),
+                          ("fluxes_from_ujk", lambda: ff.fluxes_from_ujk(l, np.ones(l.n_edges, dtype=np.int8))), ("ujk_from_fluxes", lambda: ff.ujk_from_fluxes(l, np.ones(l.n_plaquettes, dtype=np.int8))),
+                          ("permute_vertices", lambda: permute_vertices(l, rng.permutation(l.n_vertices))), ("lloyd_relaxation", lambda: gu.lloyd_relaxation(l, 1) if fam == "vor" else None)):
+            try:
+                with warnings.catch_warnings():
+                    warnings.simplefilter("ignore")
+                    op()
+                ran.append(oname)
+            except Exception:
+                continue                                          # an operation that does not apply to this lattice (too small, open, ...) is not this property's business
+            try:
+                after = tables_of(l)
+            except Exception as ex:
+                ctx.impl_violation(f"{name}: reading the tables after {oname} raised {type(ex).__name__}: {ex}", dict(case=name, after=oname, lattice=zoo.lat_to_json(l))); break
+            if after != before:
+                key = [k for k in before if before[k] != after[k]]
+                ctx.impl_violation(f"{name}: after {oname}(lattice) the lattice's own table(s) {key} differ from what they were (and from the edge / plaquette lists)",
+                                   dict(case=name, after=oname, tables=key, lattice=zoo.lat_to_json(l))); break
+        ctx.case((name, "tables after operations"), nontrivial=len(ran) >= 4)
+        ctx.count("operation_panels_run")
     # churn: fresh lattices that are dropped after use (re-used object addresses), judged by the table oracle
     for name, l in zoo.churn(rng, 40 if ctx.tier == "quick" else 400):
         if min_gap(l) < GAP_MIN:
